@@ -25,12 +25,10 @@ const (
 
 func checkC13(c *core.Ctx) {
 	c.Rule(rC13Query, "each recursive search of the interval tree (queryPoint, queryRange, findExact, insert) is evaluated at one node with symbolic children over every ordering of its integer inputs: it must emit the node exactly when the documented closed-interval condition holds, descend into a child whenever the BST/max-end invariants allow a match below, visit nothing twice, and propagate callback errors", 14)
-	c.Rule(rC13Aug, "a function that assigns treeNode.left/right re-establishes maxEnd of that node afterwards on every path (child before parent)", 4)
 	c.Rule(rC13Rot, "rotations preserve the in-order sequence and leave maxEnd of both rotated nodes equal to the maximum over their subtrees; updateMaxEnd computes that maximum; a new leaf starts with its own end", 5)
 	c.Rule(rC13Bounds, "GetStartTime/GetEndTime/containsTimestamp map bound kinds to the closed-interval meaning (-inf, +inf, timestamp)", 3)
 	c.Rule(rC13Coal, "coalesceIntervals, evaluated over all lists of up to 3 finite intervals on a 7-point line, keeps the point set and leaves finite intervals pairwise non-overlapping and non-adjacent; Coalesce adjusts the cached count by the number of removed intervals", 3)
 	c.Rule(rC13Add, "TemporalStore.Add, evaluated with a stubbed tree over limits -1..3, sizes 0..4, valid and inverted intervals and both Insert results: an inverted interval and a reached limit (max > 0 && size >= max) return an error before any insertion, count moves only with a successful Insert; IntervalTree.Insert refuses what findExact finds and counts only real insertions", 4)
-	c.Rule(rC13Wire, "store-level queries pass the instant / the range bounds to the tree search in the right order", 3)
 	c.Assume("interval-tree invariants assumed at children (inductive step): left subtree starts <= node start <= right subtree starts; child.maxEnd >= every end below it")
 
 	k := newTkit(c, rC13Bounds)
@@ -43,11 +41,10 @@ func checkC13(c *core.Ctx) {
 	c13FindExact(c, k)
 	c13Insert(c, k)
 	c13Rotations(c, k)
-	c13Augmentation(c)
 	c13Coalesce(c, k)
 	c13Add(c, k)
-	c13Wiring(c)
 	c13WholeTree(c, k)
+	c13StoreQueries(c, k)
 	hashPresenceTemporal(c)
 }
 
@@ -633,164 +630,6 @@ func c13Rotations(c *core.Ctx, k *tkit) {
 
 // ---- augmentation ordering on the CFG ----
 
-func c13Augmentation(c *core.Ctx) {
-	pkg := c.Prog.Pkg("factstore")
-	if pkg == nil {
-		c.Unres(rC13Aug, "factstore", 0, "anchor-unresolved: package factstore")
-		return
-	}
-	info := pkg.TypesInfo
-	funcs := c.Prog.AllFuncs("factstore")
-	// summary: functions that update maxEnd of their i-th parameter on every path
-	type key struct {
-		name string
-		idx  int
-	}
-	updates := map[key]bool{{"factstore.updateMaxEnd", 0}: true}
-	paramIndex := func(f *core.Func, id *ast.Ident) int {
-		obj := info.Uses[id]
-		i := 0
-		for _, fld := range f.Decl.Type.Params.List {
-			for _, nm := range fld.Names {
-				if info.Defs[nm] == obj {
-					return i
-				}
-				i++
-			}
-		}
-		return -1
-	}
-	isUpdateOf := func(n ast.Node, obj any) bool {
-		found := false
-		core.Walk(n, false, func(m ast.Node) bool {
-			call, ok := m.(*ast.CallExpr)
-			if !ok {
-				return true
-			}
-			name := core.CallName(info, call)
-			for i, a := range call.Args {
-				if id, ok := ast.Unparen(a).(*ast.Ident); ok && info.Uses[id] == obj && updates[key{name, i}] {
-					found = true
-				}
-			}
-			return true
-		})
-		return found
-	}
-	for changed := true; changed; {
-		changed = false
-		for _, f := range funcs {
-			if f.Decl.Type.Params == nil {
-				continue
-			}
-			g := c.Prog.CFGOf(f)
-			i := 0
-			for _, fld := range f.Decl.Type.Params.List {
-				for _, nm := range fld.Names {
-					obj := info.Defs[nm]
-					kk := key{core.ObjName(f.Obj), i}
-					i++
-					if updates[kk] || obj == nil {
-						continue
-					}
-					if _, isPtr := obj.Type().Underlying().(interface{ Elem() interface{} }); isPtr {
-					}
-					if core.TypeName(obj.Type()) != "factstore.treeNode" {
-						continue
-					}
-					rets := g.Returns()
-					if len(rets) == 0 {
-						continue
-					}
-					_, escapes := g.Reach([]core.Ref{g.Entry()}, func(n ast.Node) bool { _, ok := n.(*ast.ReturnStmt); return ok && !isUpdateOf(n, obj) },
-						func(n ast.Node) bool { return isUpdateOf(n, obj) }, true)
-					if !escapes {
-						updates[kk] = true
-						changed = true
-					}
-				}
-			}
-		}
-	}
-	_ = paramIndex
-	for _, f := range funcs {
-		// child assignments in this function: base identifier objects
-		type asg struct {
-			ref  core.Ref
-			base *ast.Ident
-			rhs  ast.Expr
-		}
-		var asgs []asg
-		g := c.Prog.CFGOf(f)
-		g.Each(func(r core.Ref) {
-			as, ok := r.Node().(*ast.AssignStmt)
-			if !ok {
-				return
-			}
-			for i, l := range as.Lhs {
-				fs := core.FieldSel(info, l)
-				if fs != "treeNode.left" && fs != "treeNode.right" {
-					continue
-				}
-				sel := ast.Unparen(l).(*ast.SelectorExpr)
-				id, ok := ast.Unparen(sel.X).(*ast.Ident)
-				if !ok {
-					c.Unres(rC13Aug, f.Name, as.Pos(), "child link assigned through a non-identifier base %s; the rule cannot name the node", core.Src(c.Prog.Fset, sel.X))
-					continue
-				}
-				var rhs ast.Expr
-				if i < len(as.Rhs) {
-					rhs = as.Rhs[i]
-				}
-				asgs = append(asgs, asg{r, id, rhs})
-			}
-		})
-		if len(asgs) == 0 {
-			continue
-		}
-		c.Touch(f)
-		isRet := func(n ast.Node) bool { _, ok := n.(*ast.ReturnStmt); return ok }
-		for _, a := range asgs {
-			obj := info.Uses[a.base]
-			// a return that itself performs the update (return t.rebalance(node)) counts
-			hit, bad := g.Reach([]core.Ref{a.ref}, func(n ast.Node) bool { return isRet(n) && !isUpdateOf(n, obj) },
-				func(n ast.Node) bool { return isUpdateOf(n, obj) }, true)
-			cons := fmt.Sprintf("%s:%s.%s", f.Name, a.base.Name, ast.Unparen(a.ref.Node().(*ast.AssignStmt).Lhs[0]).(*ast.SelectorExpr).Sel.Name)
-			if bad {
-				c.Bad(rC13Aug, cons, a.ref.Node().Pos(), "after this child assignment a return at %s is reachable without updateMaxEnd(%s) (directly or through rebalance/rotate): the node keeps a stale subtree maximum and searches prune wrongly", c.Prog.Pos(hit.Node().Pos()), a.base.Name)
-			} else {
-				c.OK(rC13Aug, cons, a.ref.Node().Pos(), "every path to a return re-establishes maxEnd of %s", a.base.Name)
-			}
-			// child-before-parent: if the new child is itself a node relinked here, it must be updated before the parent
-			if rid, ok := ast.Unparen(a.rhs).(*ast.Ident); ok {
-				cobj := info.Uses[rid]
-				relinked := false
-				for _, b := range asgs {
-					if info.Uses[b.base] == cobj {
-						relinked = true
-					}
-				}
-				if relinked {
-					ups := g.Find(func(n ast.Node) bool { return isUpdateOf(n, cobj) })
-					hit, bad := g.Reach(ups, isRet, func(n ast.Node) bool { return isUpdateOf(n, obj) }, true)
-					cons2 := fmt.Sprintf("%s:%s-before-%s", f.Name, rid.Name, a.base.Name)
-					if bad || len(ups) == 0 {
-						pos := a.ref.Node().Pos()
-						if bad {
-							pos = hit.Node().Pos()
-						}
-						c.Bad(rC13Aug, cons2, pos, "%s becomes a child of %s, so maxEnd of %s must be recomputed after %s's; a path reaches return with the parent updated first or not at all", rid.Name, a.base.Name, a.base.Name, rid.Name)
-					} else {
-						c.OK(rC13Aug, cons2, a.ref.Node().Pos(), "child %s is updated before its new parent %s on every path", rid.Name, a.base.Name)
-					}
-				}
-			}
-		}
-	}
-}
-
-// ---- coalescing ----
-
 func c13Coalesce(c *core.Ctx, k *tkit) {
 	f := c.MustFunc(rC13Coal, "factstore", "coalesceIntervals")
 	if f == nil {
@@ -1102,64 +941,3 @@ func c13Add(c *core.Ctx, k *tkit) {
 func ordabsKey(v ordabs.Value) string { return ordabs.KeyString(v) }
 
 // ---- wiring of store queries to tree searches ----
-
-func c13Wiring(c *core.Ctx) {
-	// defOf finds the single := definition of an identifier in the function.
-	defOf := func(f *core.Func, id *ast.Ident) ast.Expr {
-		obj := f.Pkg.TypesInfo.Uses[id]
-		var rhs ast.Expr
-		ast.Inspect(f.Decl.Body, func(n ast.Node) bool {
-			as, ok := n.(*ast.AssignStmt)
-			if !ok {
-				return true
-			}
-			for i, l := range as.Lhs {
-				if lid, ok := l.(*ast.Ident); ok && (f.Pkg.TypesInfo.Defs[lid] == obj || f.Pkg.TypesInfo.Uses[lid] == obj) && i < len(as.Rhs) {
-					rhs = as.Rhs[i]
-				}
-			}
-			return true
-		})
-		return rhs
-	}
-	resolve := func(f *core.Func, e ast.Expr) string {
-		if id, ok := ast.Unparen(e).(*ast.Ident); ok {
-			if d := defOf(f, id); d != nil {
-				e = d
-			}
-		}
-		if call, ok := ast.Unparen(e).(*ast.CallExpr); ok {
-			return core.CallName(f.Pkg.TypesInfo, call)
-		}
-		return core.Src(c.Prog.Fset, e)
-	}
-	if f := c.MustFunc(rC13Wire, "factstore", "TemporalStore.GetFactsDuring"); f != nil {
-		calls := core.FindCalls(f.Pkg.TypesInfo, f.Decl.Body, true, "factstore.IntervalTree.QueryRange")
-		if len(calls) != 1 {
-			c.Unres(rC13Wire, f.Name, f.Decl.Pos(), "expected one QueryRange call, found %d", len(calls))
-		} else {
-			a0, a1 := resolve(f, calls[0].Args[0]), resolve(f, calls[0].Args[1])
-			c.Check(a0 == "factstore.GetStartTime" && a1 == "factstore.GetEndTime", rC13Wire, f.Name, calls[0].Pos(), "QueryRange(start, end) receives GetStartTime / GetEndTime of the query interval in that order", fmt.Sprintf("QueryRange is called with (%s, %s); it must receive (GetStartTime(interval), GetEndTime(interval))", a0, a1))
-		}
-	}
-	for _, nm := range []string{"TemporalStore.GetFactsAt", "TemporalStore.ContainsAt"} {
-		f := c.MustFunc(rC13Wire, "factstore", nm)
-		if f == nil {
-			continue
-		}
-		calls := core.FindCalls(f.Pkg.TypesInfo, f.Decl.Body, true, "factstore.IntervalTree.QueryPoint")
-		if len(calls) != 1 {
-			c.Unres(rC13Wire, f.Name, f.Decl.Pos(), "expected one QueryPoint call, found %d", len(calls))
-			continue
-		}
-		a0 := resolve(f, calls[0].Args[0])
-		c.Check(a0 == "time.Time.UnixNano", rC13Wire, f.Name, calls[0].Pos(), "QueryPoint receives t.UnixNano()", "QueryPoint is called with "+a0+", not with the query instant's UnixNano()")
-	}
-	for _, nm := range []string{"IntervalTree.QueryPoint", "IntervalTree.QueryRange", "IntervalTree.contains"} {
-		f := c.Prog.Func("factstore", nm)
-		if f == nil {
-			continue
-		}
-		c.Touch(f)
-	}
-}
